@@ -8,7 +8,7 @@
    [wt_pool_value] are the pool values the code prices market tokens with (maximised with the
    deposit pnl factor / minimised with the withdrawal pnl factor). *)
 From GV Require Import lib.Base C01.Model MK.Market MK.Swap MK.Liquidity MK.MarketProofs MK.SwapProofs
-  MK.LiquidityProofs MK.Examples C06.Proofs C06.NoOI C06.RoundTrip.
+  MK.LiquidityProofs MK.Examples C06.Proofs C06.NoOI C06.RoundTrip C06.Calm C06.CalmTrip.
 Open Scope Z_scope.
 
 (* ---------- minting ---------- *)
@@ -103,6 +103,20 @@ Proof.
   - destruct (Z.eq_dec (total_supply s) 0) as [Z0|N]; [specialize (B Z0)|specialize (A ltac:(lia))]; lia.
 Qed.
 
+(* Markets WITH open interest that are "calm" (C06/Calm.v): borrowing fees accrued up to now
+   (borrowing clock = now, which the store's pre_execute establishes before every deposit /
+   withdrawal), and every positive pnl within min(deposit cap, withdrawal cap) times the side's
+   minimised liquidity value (so no pnl cap binds).  Any open interest, borrowing factors,
+   total borrowing, impact pools, position-impact pool and its clock, fees, configuration. *)
+Theorem c06_round_trip_calm : forall w, 1 <= w -> forall unit, 0 < unit -> forall cfg s l sh ps s1 rd td s2 rw tw,
+  wf_state w s -> wf_prices w ps -> in_range w l -> in_range w sh -> 0 <= value_to_amount_divisor s ->
+  calm w unit cfg s ps -> ordered_prices ps ->
+  deposit_exec_trace w unit cfg s l sh ps = Ok (s1, rd, td) ->
+  withdraw_exec_trace w unit cfg s1 (dr_minted rd) ps = Ok (s2, rw, tw) ->
+  (0 < total_supply s -> out_value ps rw <= in_value l sh ps + funded_value ps td) /\
+  (total_supply s = 0 -> out_value ps rw <= in_value l sh ps + dt_pool_value td).
+Proof. intros. eapply round_trip_calm with (w := w) (unit := unit) (cfg := cfg) (s1 := s1) (rd := rd) (td := td) (s2 := s2) (tw := tw); eassumption. Qed.
+
 (* ---------- no dilution of the other LPs ---------- *)
 (* deposit: pool value per token (deposit valuation) does not fall, provided the pool value
    grows by at least the credited value — proved for markets without open positions *)
@@ -121,6 +135,14 @@ Theorem c06_deposit_no_dilution_no_open_interest : forall w, 1 <= w -> forall un
   dt_pool_value td * total_supply s1 <= P1 * total_supply s.
 Proof. intros. eapply deposit_no_dilution_no_oi with (w := w) (unit := unit) (cfg := cfg) (l := l) (sh := sh) (rd := rd) (td := td) (ps := ps); eassumption. Qed.
 
+Theorem c06_deposit_no_dilution_calm : forall w, 1 <= w -> forall unit, 0 < unit -> forall cfg s l sh ps s1 rd td P1,
+  wf_state w s -> wf_prices w ps -> in_range w l -> in_range w sh -> 0 <= value_to_amount_divisor s ->
+  calm w unit cfg s ps -> ordered_prices ps ->
+  deposit_exec_trace w unit cfg s l sh ps = Ok (s1, rd, td) -> 0 < total_supply s ->
+  pool_value w unit cfg s1 ps MaxAfterDeposit true = Ok P1 ->
+  dt_pool_value td * total_supply s1 <= P1 * total_supply s.
+Proof. intros. eapply deposit_no_dilution_calm with (w := w) (unit := unit) (cfg := cfg) (l := l) (sh := sh) (rd := rd) (td := td) (ps := ps); eassumption. Qed.
+
 (* withdrawal: pool value per token (withdrawal valuation) does not fall, provided the pool value
    falls by at most the gross value paid — proved for markets without open positions *)
 Theorem c06_withdraw_no_dilution_partial : forall w, 1 <= w -> forall unit, 0 < unit -> forall cfg s a ps s2 rw tw P2,
@@ -137,7 +159,16 @@ Theorem c06_withdraw_no_dilution_no_open_interest : forall w, 1 <= w -> forall u
   wt_pool_value tw * total_supply s2 <= P2 * total_supply s.
 Proof. intros. eapply withdraw_no_dilution_no_oi with (w := w) (unit := unit) (cfg := cfg) (a := a) (rw := rw) (tw := tw) (ps := ps); eassumption. Qed.
 
-(* ---------- the two known classes are real (the literal text fails there) ---------- *)
+(* calm before and after (the post-state condition is what validate_max_pnl enforces up to rounding) *)
+Theorem c06_withdraw_no_dilution_calm : forall w, 1 <= w -> forall unit, 0 < unit -> forall cfg s a ps s2 rw tw P2,
+  wf_state w s -> wf_prices w ps -> in_range w a ->
+  calm w unit cfg s ps -> calm w unit cfg s2 ps -> ordered_prices ps ->
+  withdraw_exec_trace w unit cfg s a ps = Ok (s2, rw, tw) ->
+  pool_value w unit cfg s2 ps MaxAfterWithdrawal false = Ok P2 ->
+  wt_pool_value tw * total_supply s2 <= P2 * total_supply s.
+Proof. intros. eapply withdraw_no_dilution_calm with (w := w) (unit := unit) (cfg := cfg) (a := a) (rw := rw) (tw := tw) (ps := ps); eassumption. Qed.
+
+(* ---------- the known classes are real (the literal text fails there) ---------- *)
 (* class 1 FundedPositiveImpact: +43120 on a 6*10^10 deposit (the replay of DESIGN.md section 7) *)
 Theorem c06_funded_positive_impact_refuted :
   exists s1 rd td s2 rw tw,
@@ -184,4 +215,25 @@ Example c06_ex_round_trip :
 Proof.
   eexists. eexists. eexists. eexists. eexists. eexists.
   split; [vm_compute; reflexivity|]. split; [vm_compute; reflexivity|]. vm_compute. repeat split; reflexivity.
+Qed.
+
+(* a calm market with open interest: long OI 6*10^10 usd / 5*10^8 tokens (pnl 0 at 120, positive at
+   121), cumulative borrowing factor 0.01, borrowed total booked, borrowing clock = now *)
+Definition calm_market : mstate :=
+  mkState 240000000000 1 10000 (mkPool 1000000000 100000000000) (mkPool 5000 7000) pool0
+    (mkPool 60000000000 0) pool0 (mkPool 500000000 0) pool0 (mkPool 1000000 0) (mkPool 10000000 0) 0
+    pool0 pool0 pool0 pool0 pool0 pool0 (mkPool 600000000 0) 1000 None (Some 1000) None None None.
+Example c06_ex_calm : calm 64 (10 ^ 9) cfg64 calm_market ex_prices.
+Proof.
+  constructor; try (cbn; lia); try reflexivity.
+  intros il mxp p E P. destruct il, mxp; vm_compute in E; injection E as <-; vm_compute; first [discriminate P | intros C; discriminate C].
+Qed.
+Example c06_ex_calm_round_trip :
+  exists s1 rd td s2 rw tw,
+    deposit_exec_trace 64 (10 ^ 9) cfg64 calm_market 1000000 0 ex_prices = Ok (s1, rd, td) /\
+    withdraw_exec_trace 64 (10 ^ 9) cfg64 s1 (dr_minted rd) ex_prices = Ok (s2, rw, tw) /\
+    0 < out_value ex_prices rw < in_value 1000000 0 ex_prices.
+Proof.
+  eexists. eexists. eexists. eexists. eexists. eexists.
+  split; [vm_compute; reflexivity|]. split; [vm_compute; reflexivity|]. vm_compute. split; reflexivity.
 Qed.
